@@ -877,6 +877,8 @@ package tds
 //@ ghost field Channel.$rxfail bool
 //@ # $waitctx = the context the most recent NextPackage call on this channel waited on (C13)
 //@ ghost field Channel.$waitctx int
+//@ # $cbeof = the most recent call of the consumer's callback returned exactly io.EOF (C11)
+//@ ghost field Channel.$cbeof bool
 //@ # reply script (C08): the i-th package NextPackage handed out on this channel had Go type
 //@ # tag $rxtag[i] and, for LOGINACK / DONE / MSG, the status or message id $rxst[i]
 //@ ghost field Channel.$rxn int
@@ -913,7 +915,12 @@ package tds
 //@   ensures [drain-filter] err == nil && ok == (is(pkg, *DonePackage) && as(pkg, *DonePackage).Status == 0)
 //@ func (*Channel).NextPackageUntil returns (pkg, err) per-return
 //@   requires [script] 0 <= tdsChan.$rxn
-//@   modifies tdsChan.$lastFinal, tdsChan.$rxfail, tdsChan.$rxn, tdsChan.$rxtag, tdsChan.$rxst, tdsChan.$waitctx
+//@   modifies tdsChan.$lastFinal, tdsChan.$rxfail, tdsChan.$rxn, tdsChan.$rxtag, tdsChan.$rxst, tdsChan.$waitctx, tdsChan.$cbeof
+//@   ghost-update at after paramfunc:(*tds.Channel).NextPackageUntil.processPkg#1: tdsChan.$cbeof := ($res1 == io.EOF)
+//@   # a package comes back together with an error only for the end-of-result-set signal: the
+//@   # callback returned exactly io.EOF, which is handed back unchanged (C11: the returned error
+//@   # still matches the callback's error)
+//@   ensures [error-with-package-is-the-callbacks-eof] err != nil && tag(pkg) != 0 ==> err == io.EOF && tdsChan.$cbeof
 //@   ensures [script-grows] old(tdsChan.$rxn) <= tdsChan.$rxn && (forall i int :: 0 <= i && i < old(tdsChan.$rxn) ==> tdsChan.$rxtag[i] == old(tdsChan.$rxtag[i]) && tdsChan.$rxst[i] == old(tdsChan.$rxst[i]))
 //@   ensures [returns-last-of-script] err == nil && processPkg != nil ==> tdsChan.$rxn > old(tdsChan.$rxn) && tdsChan.$rxtag[tdsChan.$rxn - 1] == tag(pkg) && tdsChan.$rxst[tdsChan.$rxn - 1] == pkgstatus(pkg)
 //@   ensures [returns-last-received] err == nil && processPkg != nil ==> tdsChan.$lastFinal == (is(pkg, *DonePackage) && as(pkg, *DonePackage).Status == 0)
